@@ -227,6 +227,26 @@ func c03RunSet(c *Ctx, s *c03Set, nEnc int) {
 			s.sk2 = sk
 		}
 	}
+	// GenSecretKeyWithHammingWeight (same model op: the stored key is MForm(ext(draw)))
+	{
+		hw := 1 + c.rng.Intn(s.N)
+		skh := kgen.GenSecretKeyWithHammingWeightNew(hw)
+		draw := ktw.drawSH(hw)
+		c.Emit("gensk "+s.hdr+" draw="+c03Q(s, draw, s.maxL, false),
+			"skq="+c03Q(s, skh.Value.Q, s.maxL, true)+" skp="+c03P(s, skh.Value.P, s.nP-1))
+		c.Count("op:gensk(hw)")
+		nz := 0
+		for _, x := range Canon(params.RingQ(), draw, false, false)[0] {
+			if x != 0 {
+				nz++
+			}
+		}
+		detail := ""
+		if nz != hw {
+			detail = fmt.Sprintf("asked hw=%d, key has %d non-zero coefficients", hw, nz)
+		}
+		c.Probe("sk_hamming_weight", fmt.Sprintf("%s hw=%d", s.hdr, hw), "C03-sk-hamming-weight", detail)
+	}
 	// GenPublicKey
 	pk := rlwe.NewPublicKey(params)
 	kgen.GenPublicKey(s.sk, pk)
@@ -256,6 +276,7 @@ func c03RunSet(c *Ctx, s *c03Set, nEnc int) {
 		}
 	}
 	c03ShallowCopyPRNG(c, s)
+	c03Unsupported(c, s)
 	c03DecryptJunk(c, s, c.Scale(6, 16))
 	c03Statistics(c, s)
 }
@@ -348,10 +369,6 @@ func (p *c03Pool) derive(c *Ctx, s *c03Set) {
 // ---------------------------------------------------------------------------------------------
 // one encryption: tie line + decryption tie + probes
 
-type c03Meta struct {
-	md rlwe.MetaData
-}
-
 func c03RandMeta(c *Ctx, s *c03Set) *rlwe.MetaData {
 	r := c.rng
 	md := &rlwe.MetaData{}
@@ -380,10 +397,10 @@ func c03MetaStr(md *rlwe.MetaData) string {
 		mod = md.Scale.Mod.String()
 	}
 	return fmt.Sprintf("%s:%d:%s:%d:%d:%d:%d", md.Scale.Value.Text('p', 0), md.Scale.Value.Prec(), mod,
-		md.LogDimensions.Rows, md.LogDimensions.Cols, b2i(md.IsBatched), b2i(md.IsBitReversed))
+		md.LogDimensions.Rows, md.LogDimensions.Cols, c03B2i(md.IsBatched), c03B2i(md.IsBitReversed))
 }
 
-func b2i(b bool) int {
+func c03B2i(b bool) int {
 	if b {
 		return 1
 	}
@@ -465,10 +482,10 @@ func c03OneEncryption(c *Ctx, s *c03Set, v *c03Variant) (alive bool) {
 		oldStr[i] = Mat(Canon(ringLc, ct.Value[i], isNTT, false))
 	}
 	line := fmt.Sprintf("enc %s key=%s deg=%d lc=%d cntt=%d cmont=%d cmeta=%s old=%s", s.hdr, v.key, deg, lc,
-		b2i(ct.IsNTT), b2i(ct.IsMontgomery), c03MetaStr(ct.MetaData), strings.Join(oldStr, "|"))
+		c03B2i(ct.IsNTT), c03B2i(ct.IsMontgomery), c03MetaStr(ct.MetaData), strings.Join(oldStr, "|"))
 	var ptIn *rlwe.Plaintext
 	if hasPt {
-		line += fmt.Sprintf(" haspt=1 lp=%d pntt=%d pmont=%d pmeta=%s pt=%s", lp, b2i(pt.IsNTT), b2i(pt.IsMontgomery),
+		line += fmt.Sprintf(" haspt=1 lp=%d pntt=%d pmont=%d pmeta=%s pt=%s", lp, c03B2i(pt.IsNTT), c03B2i(pt.IsMontgomery),
 			c03MetaStr(pt.MetaData), Mat(Canon(params.RingQ().AtLevel(lp), pt.Value, pt.IsNTT, false)))
 		ptIn = pt.CopyNew()
 	} else {
@@ -539,7 +556,7 @@ func c03OneEncryption(c *Ctx, s *c03Set, v *c03Variant) (alive bool) {
 	c.Count("enc:api=" + api)
 	c.Count("enc:key=" + v.key + map[bool]string{true: "+P", false: ""}[v.key == "pk" && s.nP > 0])
 	c.Count(fmt.Sprintf("enc:deg=%d", deg))
-	c.Count(fmt.Sprintf("enc:ntt=%d,mont=%d", b2i(isNTT), b2i(isMont)))
+	c.Count(fmt.Sprintf("enc:ntt=%d,mont=%d", c03B2i(isNTT), c03B2i(isMont)))
 	c.Count("enc:how=" + v.how[strings.LastIndex(v.how, ".")+1:])
 	if level < s.maxL {
 		c.Count("enc:level<max")
@@ -558,7 +575,7 @@ func c03OneEncryption(c *Ctx, s *c03Set, v *c03Variant) (alive bool) {
 				key = "C03-ternary-atlevel-panic"
 			}
 			c.Probe("encrypt_total", fmt.Sprintf("%s key=%s api=%s deg=%d level=%d ntt=%d mont=%d seed=%d", s.hdr, c03Path(s, v.key), api, deg,
-				level, b2i(isNTT), b2i(isMont), c.Seed), key, "Encrypt panicked on an accepted parameter set and a well-formed target ("+s.label+")")
+				level, c03B2i(isNTT), c03B2i(isMont), c.Seed), key, "Encrypt panicked on an accepted parameter set and a well-formed target ("+s.label+")")
 		}
 		return false
 	}
@@ -581,7 +598,7 @@ func c03CtOut(s *c03Set, ct *rlwe.Ciphertext) string {
 	for i := range ct.Value {
 		parts[i] = Mat(Canon(rg, ct.Value[i], ct.IsNTT, false))
 	}
-	return fmt.Sprintf("ok lvl=%d ntt=%d mont=%d meta=%s ct=%s", l, b2i(ct.IsNTT), b2i(ct.IsMontgomery), c03MetaStr(ct.MetaData),
+	return fmt.Sprintf("ok lvl=%d ntt=%d mont=%d meta=%s ct=%s", l, c03B2i(ct.IsNTT), c03B2i(ct.IsMontgomery), c03MetaStr(ct.MetaData),
 		strings.Join(parts, "|"))
 }
 
@@ -604,7 +621,7 @@ func c03DecTie(c *Ctx, s *c03Set, ct *rlwe.Ciphertext, lpt int, useNew bool) {
 		c03ProbeDecryptDeg7(c, s, ct)
 		return
 	}
-	line := fmt.Sprintf("dec %s lc=%d lpt=%d ntt=%d mont=%d meta=%s ct=%s %s", s.hdr, lc, lpt, b2i(ct.IsNTT), b2i(ct.IsMontgomery),
+	line := fmt.Sprintf("dec %s lc=%d lpt=%d ntt=%d mont=%d meta=%s ct=%s %s", s.hdr, lc, lpt, c03B2i(ct.IsNTT), c03B2i(ct.IsMontgomery),
 		c03MetaStr(ct.MetaData), strings.Join(parts, "|"), c03SkTok(s, s.sk))
 	var pt *rlwe.Plaintext
 	out := Try(func() string {
@@ -616,7 +633,7 @@ func c03DecTie(c *Ctx, s *c03Set, ct *rlwe.Ciphertext, lpt int, useNew bool) {
 			s.dec.Decrypt(ct, pt)
 		}
 		l := pt.Level()
-		return fmt.Sprintf("ok lvl=%d ntt=%d mont=%d meta=%s pt=%s", l, b2i(pt.IsNTT), b2i(pt.IsMontgomery), c03MetaStr(pt.MetaData),
+		return fmt.Sprintf("ok lvl=%d ntt=%d mont=%d meta=%s pt=%s", l, c03B2i(pt.IsNTT), c03B2i(pt.IsMontgomery), c03MetaStr(pt.MetaData),
 			Mat(Canon(params.RingQ().AtLevel(l), pt.Value, pt.IsNTT, false)))
 	})
 	c.Emit(line, out)
@@ -671,4 +688,34 @@ func c03SkTok(s *c03Set, sk *rlwe.SecretKey) string {
 func c03PkTok(s *c03Set, pk *rlwe.PublicKey) string {
 	return "pk0q=" + c03Q(s, pk.Value[0].Q, s.maxL, true) + " pk0p=" + c03P(s, pk.Value[0].P, s.nP-1) +
 		" pk1q=" + c03Q(s, pk.Value[1].Q, s.maxL, true) + " pk1p=" + c03P(s, pk.Value[1].P, s.nP-1)
+}
+
+// c03Unsupported: malformed targets must be answered with an error value (not a panic, not success).
+func c03Unsupported(c *Ctx, s *c03Set) {
+	pt := rlwe.NewPlaintext(s.params, s.maxL)
+	for _, key := range []string{"sk", "pk", "none"} {
+		v := c03NewEncryptor(s, key)
+		for _, tgt := range []struct {
+			name string
+			v    interface{}
+		}{{"plaintext", pt}, {"int", 42}, {"nil", nil}, {"ct-by-value", *rlwe.NewCiphertext(s.params, 1, s.maxL)}} {
+			out := Try(func() string {
+				if err := v.enc.Encrypt(pt, tgt.v); err != nil {
+					return "err"
+				}
+				return "ok"
+			})
+			out2 := Try(func() string {
+				if err := v.enc.EncryptZero(tgt.v); err != nil {
+					return "err"
+				}
+				return "ok"
+			})
+			detail := ""
+			if out != "err" || out2 != "err" {
+				detail = fmt.Sprintf("Encrypt -> %s, EncryptZero -> %s (want err, err)", out, out2)
+			}
+			c.Probe("unsupported_target_errors", fmt.Sprintf("%s key=%s target=%s", s.hdr, key, tgt.name), "C03-unsupported-target", detail)
+		}
+	}
 }
